@@ -163,14 +163,325 @@ Proof.
 Qed.
 
 (** ** The sum over matched positions is the dense double sum *)
-Section DenseSum.
-Variables (ia ib : nat -> nat) (va vb : nat -> K).
-Variable g : nat -> K.
-Variables (p n q k M : nat).
-Hypothesis Hia : forall p', p <= p' < p + n -> ia p' < M.
+Lemma bsum_if_single {A} (c : bool) (x : A) (f : A -> K) : bsum (if c then [x] else []) f = if c then f x else k0.
+Proof. destruct c; cbn [bigsum]; ring. Qed.
 
-Lemma delta_pair (x y : nat) (h : nat -> K) : x < M ->
-  bsum (seq 0 M) (fun m => (if x =? m then k1 else k0) * (if y =? m then k1 else k0) * h m)%type = (if x =? y then h x else k0).
-Admitted.
-End DenseSum.
+Lemma sum_matches (ia ib : nat -> nat) (p n q k : nat) (F : nat * nat -> K) :
+  bsum (matches ia ib p n q k) F =
+  bsum (seq p n) (fun p' => bsum (seq q k) (fun q' => if ia p' =? ib q' then F (p', q') else k0)).
+Proof.
+  unfold matches, row_matches. rewrite BS_flat_map. apply BS_ext. intros p' _.
+  rewrite BS_flat_map. apply BS_ext. intros q' _. apply bsum_if_single.
+Qed.
+
+Lemma dense_sum (ia ib : nat -> nat) (va vb g : nat -> K) (p n q k M : nat) :
+  (forall p', p <= p' < p + n -> ia p' < M) ->
+  bsum (seq p n) (fun p' => bsum (seq q k) (fun q' =>
+     if ia p' =? ib q' then kmul (kmul (va p') (vb q')) (g (ia p')) else k0)) =
+  bsum (seq 0 M) (fun m =>
+     kmul (kmul (bsum (seq p n) (fun p' => if ia p' =? m then va p' else k0))
+                (bsum (seq q k) (fun q' => if ib q' =? m then vb q' else k0))) (g m)).
+Proof.
+  intros Hia. symmetry.
+  transitivity (bsum (seq 0 M) (fun m => bsum (seq p n) (fun p' => bsum (seq q k) (fun q' =>
+     kmul (kmul (if ia p' =? m then va p' else k0) (if ib q' =? m then vb q' else k0)) (g m))))).
+  { apply BS_ext. intros m _. rewrite BS_scale_r, BS_scale_r. apply BS_ext. intros p' _.
+    rewrite <- BS_scale_r, BS_scale_l, BS_scale_r. apply BS_ext. intros q' _. reflexivity. }
+  rewrite BS_swap. apply BS_ext. intros p' Hp'. apply in_seq in Hp'.
+  rewrite BS_swap. apply BS_ext. intros q' _.
+  transitivity (bsum (seq 0 M) (fun m => if ia p' =? m then kmul (kmul (va p') (if ib q' =? m then vb q' else k0)) (g m) else k0)).
+  { apply BS_ext. intros m _. destruct (ia p' =? m); ring. }
+  rewrite BS_delta. pose proof (Hia p' Hp') as Hlt.
+  destruct (Nat.leb_spec 0 (ia p')); [|lia]. destruct (Nat.ltb_spec (ia p') (0 + M)); [|lia]. cbn [andb].
+  rewrite (Nat.eqb_sym (ib q') (ia p')). destruct (ia p' =? ib q'); ring.
+Qed.
+
+(** the term function of the Green's function, and the kernel it evaluates to *)
+Definition fz (z : K) (t : gterm K) : K := gf_term_eval K NO (snd t) (fst t) z.
+Definition kern (inp : part_in K) (z : K) (o m : nat) : K :=
+  kmul (kadd (nth o (p_wO K inp) k0) (nth m (p_wI K inp) k0))
+       (kinv (ksub z (ksub (nth m (p_eI K inp) k0) (nth o (p_eO K inp) k0)))).
+
+Lemma fz_cand T inp z o p q :
+  fz z (snd (cand T inp (o, (p, q)))) =
+  kmul (kmul (nth p (cs_val (p_C K inp)) k0) (nth q (cs_val (p_CX K inp)) k0)) (kern inp z o (idx_at (p_C K inp) p)).
+Proof. unfold fz, cand, kern. cbn [fst snd]. rewrite gf_term_eval_char, Kdiv. ring. Qed.
+
+(** sum over ALL candidates (kept or not) = the Lehmann double sum *)
+Lemma sum_candidates T inp (W : part_wf inp) z :
+  bsum (map (cand T inp) (matches_part (p_C K inp) (p_CX K inp))) (fun x => fz z (snd x)) = gf_part_spec inp z.
+Proof.
+  rewrite BS_map. unfold matches_part. rewrite BS_flat_map. unfold gf_part_spec.
+  apply BS_ext. intros o Ho. apply in_seq in Ho. rewrite BS_map.
+  unfold matches_outer. rewrite sum_matches.
+  transitivity (bsum (seq (ptr_at (p_C K inp) o) (ptr_at (p_C K inp) (S o) - ptr_at (p_C K inp) o)) (fun p' =>
+                bsum (seq (ptr_at (p_CX K inp) o) (ptr_at (p_CX K inp) (S o) - ptr_at (p_CX K inp) o)) (fun q' =>
+                  if idx_at (p_C K inp) p' =? idx_at (p_CX K inp) q'
+                  then kmul (kmul (nth p' (cs_val (p_C K inp)) k0) (nth q' (cs_val (p_CX K inp)) k0))
+                            (kern inp z o (idx_at (p_C K inp) p')) else k0))).
+  { apply BS_ext. intros p' _. apply BS_ext. intros q' _. rewrite fz_cand. reflexivity. }
+  rewrite (dense_sum _ _ _ _ (kern inp z o) _ _ _ _ (cs_inner (p_C K inp))).
+  - apply BS_ext. intros m _. unfold cs_get, kern. rewrite Kdiv. ring.
+  - intros p' Hp'. apply (wf_idx_bound _ (pw_C inp W)).
+    pose proof (ptr_S_le_len _ (pw_C inp W) o ltac:(lia)). lia.
+Qed.
+
+(** ** Exact form: tolerances 0 *)
+Section ExactForm.
+Variable T : tols K.
+Hypothesis Hrel : forall R, gf_relevant K NO (t_matrix_element K T) R = false -> R = k0.
+Hypothesis Hcmp : forall a b, gf_compare K NO (t_compare K T) a b = false -> gf_compare K NO (t_compare K T) b a = true.
+
+Lemma sum_kept_exact (raw : list (bool * gterm K)) z :
+  (forall x, In x raw -> fst x = false -> snd (snd x) = k0) ->
+  bsum (kept K raw) (fz z) = bsum raw (fun x => fz z (snd x)).
+Proof.
+  intros H. unfold kept. rewrite BS_map, BS_filter. apply BS_ext. intros x Hx.
+  destruct (fst x) eqn:E; [reflexivity|]. unfold fz. rewrite gf_term_eval_char, Kdiv, (H x Hx E). ring.
+Qed.
+
+(** the headline equality of a part *)
+Theorem gf_part_exact fixed lenient inp (W : part_wf inp) o z :
+  gf_part_compute K NO fixed lenient T inp = WDone o ->
+  gf_part_value K NO o z = gf_part_spec inp z.
+Proof.
+  intros E. rewrite (gf_part_compute_done fixed lenient T inp W o E). cbv zeta.
+  unfold gf_part_value, gf_terms_eval. cbn [o_terms]. rewrite gf_part_eval_char.
+  unfold gf_add_terms.
+  change (fun t : term K K => gf_term_eval K NO (snd t) (fst t) z) with (fz z).
+  rewrite (termlist_exact_total K K _ _ _ Hcmp K k0 k1 kadd kmul ksub kopp Kr (fz z)).
+  unfold eval. cbn [fold_left]. rewrite BS_fold.
+  rewrite sum_kept_exact.
+  - rewrite sum_candidates by exact W. ring.
+  - intros x Hx Hf. apply in_map_iff in Hx. destruct Hx as [m [<- _]].
+    unfold cand in *. cbn [fst snd] in *. apply Hrel. exact Hf.
+Qed.
+
+(** and the repaired loops always get there *)
+Corollary gf_part_exact_fixed lenient inp (W : part_wf inp) z :
+  exists o, gf_part_compute K NO true lenient T inp = WDone o /\ gf_part_value K NO o z = gf_part_spec inp z.
+Proof.
+  destruct (gf_part_compute_fixed lenient T inp W) as [o E]. exists o. split; [exact E|].
+  apply (gf_part_exact true lenient inp W o z E).
+Qed.
+End ExactForm.
+
+(** ** General form: the error identity *)
+Add Ring KringGF2 : Kr.
+Definition errs (T : tols K) (z : K) (kept_terms : list (gterm K)) (events : list (event K K)) : K :=
+  sum_err K K K k0 kadd ksub (fz z) events kept_terms.
+
+Theorem gf_part_error_identity fixed lenient T inp (W : part_wf inp) o z :
+  gf_part_compute K NO fixed lenient T inp = WDone o ->
+  gf_part_value K NO o z =
+  kadd (ksub (gf_part_spec inp z) (bsum (dropped K (o_raw K o)) (fz z)))
+       (errs T z (kept K (o_raw K o)) (o_events K o)).
+Proof.
+  intros E. rewrite (gf_part_compute_done fixed lenient T inp W o E). cbv zeta.
+  unfold gf_part_value, gf_terms_eval, errs. cbn [o_terms o_raw o_events]. rewrite gf_part_eval_char.
+  unfold gf_add_terms.
+  change (fun t : term K K => gf_term_eval K NO (snd t) (fst t) z) with (fz z).
+  rewrite (add_terms_eval K K _ _ _ K k0 k1 kadd kmul ksub kopp Kr (fz z)).
+  rewrite <- (sum_candidates T inp W z).
+  set (raw := map (cand T inp) (matches_part (p_C K inp) (p_CX K inp))).
+  unfold eval. cbn [fold_left]. rewrite BS_fold.
+  assert (Split : bsum raw (fun x => fz z (snd x)) = kadd (bsum (kept K raw) (fz z)) (bsum (dropped K raw) (fz z))).
+  { unfold kept, dropped. rewrite !BS_map, !BS_filter.
+    rewrite <- (bigsum_plus K k0 k1 kadd kmul ksub kopp Kr). apply BS_ext. intros x _. destruct (fst x); cbn [negb]; ring. }
+  rewrite Split. unfold gterm in *.
+  generalize (sum_err K K K k0 kadd ksub (fz z)
+       (snd (add_terms K K (gf_compare K NO (t_compare K T)) (gf_negligible K NO (t_negligible K T))
+             (gf_term_add K NO) (kept K raw) [])) (kept K raw)).
+  generalize (bsum (kept K raw) (fz z)). generalize (bsum (dropped K raw) (fz z)).
+  intros a b c. ring.
+Qed.
 End Exact.
+
+(** * Stripe selection: GreensFunction::prepare (and Susceptibility::prepare) *)
+Fixpoint ksorted (l : list (nat * nat)) : Prop :=      (* strictly increasing first components: a bimap view *)
+  match l with
+  | [] => True
+  | x :: r => (forall y, In y r -> fst x < fst y) /\ ksorted r
+  end.
+
+Definition smatch_b (lr rl : nat * nat) : bool := (fst lr =? fst rl) && (snd lr =? snd rl).
+
+Lemma spec_nil_r cl : stripes_spec cl [] = [].
+Proof. unfold stripes_spec. induction cl as [|x cl IH]; [reflexivity|]. cbn [filter existsb]. exact IH. Qed.
+
+Lemma spec_cons_cl x cl cxr :
+  stripes_spec (x :: cl) cxr =
+  if existsb (fun rl => (fst x =? fst rl) && (snd x =? snd rl)) cxr then x :: stripes_spec cl cxr else stripes_spec cl cxr.
+Proof. reflexivity. Qed.
+
+Lemma spec_skip_cl x cl cxr :
+  (forall y, In y cxr -> fst x <> fst y) -> stripes_spec (x :: cl) cxr = stripes_spec cl cxr.
+Proof.
+  intros H. unfold stripes_spec. cbn [filter].
+  replace (existsb _ cxr) with false; [reflexivity|]. symmetry. apply not_true_iff_false. intros E.
+  apply existsb_exists in E. destruct E as [y [Hy E]]. apply andb_prop in E. destruct E as [E _].
+  apply Nat.eqb_eq in E. exact (H y Hy E).
+Qed.
+
+Lemma spec_skip_cxr cl y cxr :
+  (forall x, In x cl -> fst x <> fst y) -> stripes_spec cl (y :: cxr) = stripes_spec cl cxr.
+Proof.
+  intros H. unfold stripes_spec. apply filter_ext_in. intros x Hx. cbn [existsb].
+  destruct (Nat.eqb_spec (fst x) (fst y)) as [E|_]; [exfalso; exact (H x Hx E)|reflexivity].
+Qed.
+
+Theorem gf_stripes_complete : forall fuel cl cxr, ksorted cl -> ksorted cxr ->
+  length cl + length cxr <= fuel -> stripes fuel cl cxr = Some (stripes_spec cl cxr).
+Proof.
+  induction fuel as [|f IH]; intros cl cxr Hcl Hcx Hf.
+  - destruct cl; destruct cxr; cbn [length] in Hf; try lia. reflexivity.
+  - destruct cl as [|[L R] cl']; [reflexivity|].
+    destruct cxr as [|[r l] cxr']; [cbn [stripes]; rewrite spec_nil_r; reflexivity|].
+    cbn [stripes]. destruct Hcl as [Hcl1 Hcl2]. destruct Hcx as [Hcx1 Hcx2]. cbn [fst] in *.
+    cbn [length] in Hf.
+    destruct (Nat.lt_trichotomy L r) as [Lt|[Eq|Gt]].
+    + (* Cleft < CXright: only Citer advances *)
+      destruct (Nat.eqb_spec L r); [lia|]. cbn [andb].
+      destruct (Nat.leb_spec L r); [|lia]. destruct (Nat.leb_spec r L); [lia|].
+      rewrite IH; [|exact Hcl2|split; assumption|cbn [length]; lia].
+      cbn [app]. rewrite spec_skip_cl; [reflexivity|].
+      intros y [<-|Hy]; cbn [fst]; [lia|]. specialize (Hcx1 y Hy). lia.
+    + (* equal keys: both advance; selected iff the other components agree *)
+      subst r. rewrite Nat.eqb_refl. cbn [andb]. rewrite Nat.leb_refl.
+      rewrite IH; [|exact Hcl2|exact Hcx2|lia].
+      rewrite spec_cons_cl.
+      rewrite (spec_skip_cxr cl' (L, l) cxr') by (intros x Hx; specialize (Hcl1 x Hx); cbn [fst]; lia).
+      cbn [existsb fst snd]. rewrite Nat.eqb_refl. cbn [andb].
+      destruct (Nat.eqb_spec R l) as [->|NE]; cbn [orb app].
+      * reflexivity.
+      * replace (existsb _ cxr') with false; [reflexivity|]. symmetry. apply not_true_iff_false. intros E.
+        apply existsb_exists in E. destruct E as [y [Hy E]]. apply andb_prop in E. destruct E as [E _].
+        apply Nat.eqb_eq in E. specialize (Hcx1 y Hy). cbn [fst] in *. lia.
+    + (* Cleft > CXright: only CXiter advances *)
+      destruct (Nat.eqb_spec L r); [lia|]. cbn [andb].
+      destruct (Nat.leb_spec L r); [lia|]. destruct (Nat.leb_spec r L); [|lia].
+      rewrite IH; [|split; assumption|exact Hcx2|cbn [length]; lia].
+      cbn [app]. rewrite spec_skip_cxr; [reflexivity|].
+      intros x [<-|Hx]; cbn [fst]; [lia|]. specialize (Hcl1 x Hx). lia.
+Qed.
+
+(** the declarative reading of the specification *)
+Lemma in_stripes_spec cl cxr L R :
+  In (L, R) (stripes_spec cl cxr) <-> In (L, R) cl /\ In (L, R) cxr.
+Proof.
+  unfold stripes_spec. rewrite filter_In. split.
+  - intros [H1 H2]. split; [exact H1|]. apply existsb_exists in H2. destruct H2 as [[r l] [Hy E]].
+    cbn [fst snd] in E. apply andb_prop in E. destruct E as [E1 E2].
+    apply Nat.eqb_eq in E1. apply Nat.eqb_eq in E2. subst. exact Hy.
+  - intros [H1 H2]. split; [exact H1|]. apply existsb_exists. exists (L, R). split; [exact H2|].
+    cbn [fst snd]. rewrite !Nat.eqb_refl. reflexivity.
+Qed.
+
+Example ex_stripes : ksorted [(0, 2); (1, 3); (4, 0)] /\ ksorted [(0, 2); (2, 5); (4, 1)] /\
+  stripes 6 [(0, 2); (1, 3); (4, 0)] [(0, 2); (2, 5); (4, 1)] = Some [(0, 2)].
+Proof. cbn. repeat split; intros y H; repeat (destruct H as [<-|H]; cbn; try lia); destruct H. Qed.
+
+(** * Tolerance form: a bound, for any seminorm on the values (instantiated with the complex modulus) *)
+Require Import Reals Lra Field Field_theory.
+
+Section Tolerance.
+Variable K : Type.
+Variable NO : numops K.
+Notation k0 := (n0 K NO).
+Notation k1 := (n1 K NO).
+Notation kadd := (nadd K NO).
+Notation ksub := (nsub K NO).
+Notation kmul := (nmul K NO).
+Notation kdiv := (ndiv K NO).
+Notation kopp := (nopp K NO).
+Variable kinv : K -> K.
+Hypothesis Kr : ring_theory k0 k1 kadd kmul ksub kopp (@eq K).
+Hypothesis Kdiv : forall a b, kdiv a b = kmul a (kinv b).
+Add Ring KringTol : Kr.
+Notation bsum := (bigsum K k0 kadd).
+
+Variable norm : K -> R.
+Hypothesis norm_triangle : forall a b, (norm (kadd a b) <= norm a + norm b)%R.
+Hypothesis norm_opp : forall a, norm (kopp a) = norm a.
+Hypothesis norm_zero : norm k0 = 0%R.
+
+Fixpoint rsum {A} (l : list A) (f : A -> R) : R :=
+  match l with [] => 0%R | a :: r => (f a + rsum r f)%R end.
+Fixpoint rsum2 {A B} (la : list A) (lb : list B) (f : A -> B -> R) : R :=
+  match la, lb with a :: ra, b :: rb => (f a b + rsum2 ra rb f)%R | _, _ => 0%R end.
+
+Lemma norm_sub a b : (norm (ksub a b) <= norm a + norm b)%R.
+Proof.
+  replace (ksub a b) with (kadd a (kopp b)) by ring.
+  eapply Rle_trans; [apply norm_triangle|]. rewrite norm_opp. lra.
+Qed.
+
+Lemma norm_bsum {A} (l : list A) (f : A -> K) : (norm (bsum l f) <= rsum l (fun a => norm (f a)))%R.
+Proof.
+  induction l as [|x l IH]; cbn [bigsum rsum]; [rewrite norm_zero; lra|].
+  eapply Rle_trans; [apply norm_triangle|]. lra.
+Qed.
+
+Lemma norm_sum_err (f : gterm K -> K) es ts :
+  (norm (sum_err K K K k0 kadd ksub f es ts) <= rsum2 es ts (fun e t => norm (ev_err K K K k0 kadd ksub f e t)))%R.
+Proof.
+  revert ts. induction es as [|e es IH]; intros ts; cbn [sum_err rsum2]; [rewrite norm_zero; lra|].
+  destruct ts as [|t ts]; [rewrite norm_zero; lra|].
+  eapply Rle_trans; [apply norm_triangle|]. specialize (IH ts). lra.
+Qed.
+
+(** |model - Lehmann sum| <= sum over the dropped candidates of |R/(z-P)|  +  sum over the term-list events of their error;
+    the error of an event is 0 for a new term; for a merge it is R_t (P_x - P_t)/((z-P_x)(z-P_t)) with |P_x - P_t| < Tolerance
+    ([merged_err_closed_form]); for a sum dropped as negligible it is -(R_x + R_t)/(z-P_x) plus that merge term, with
+    |R_x + R_t| < Tolerance/size; a refused insertion never occurs (TermListProofs.add_term_never_refused). *)
+Theorem gf_part_tolerance fixed lenient T inp (W : part_wf K inp) o z :
+  gf_part_compute K NO fixed lenient T inp = WDone o ->
+  (norm (ksub (gf_part_value K NO o z) (gf_part_spec K NO inp z)) <=
+   rsum (dropped K (o_raw K o)) (fun t => norm (fz K NO z t)) +
+   rsum2 (o_events K o) (kept K (o_raw K o)) (fun e t => norm (ev_err K K K k0 kadd ksub (fz K NO z) e t)))%R.
+Proof.
+  intros E. rewrite (gf_part_error_identity K NO kinv Kr Kdiv fixed lenient T inp W o z E).
+  unfold errs.
+  set (D := bsum (dropped K (o_raw K o)) (fz K NO z)).
+  set (Er := sum_err K K K k0 kadd ksub (fz K NO z) (o_events K o) (kept K (o_raw K o))).
+  replace (ksub (kadd (ksub (gf_part_spec K NO inp z) D) Er) (gf_part_spec K NO inp z)) with (ksub Er D) by ring.
+  apply Rle_trans with (norm Er + norm D)%R; [apply norm_sub|].
+  rewrite (Rplus_comm (norm Er)). apply Rplus_le_compat.
+  - exact (norm_bsum (dropped K (o_raw K o)) (fz K NO z)).
+  - exact (norm_sum_err (fz K NO z) (o_events K o) (kept K (o_raw K o))).
+Qed.
+End Tolerance.
+
+(** closed form of the error of a merge event, in a field *)
+Section MergeErr.
+Variable K : Type.
+Variable NO : numops K.
+Notation k0 := (n0 K NO).
+Notation k1 := (n1 K NO).
+Notation kadd := (nadd K NO).
+Notation ksub := (nsub K NO).
+Notation kmul := (nmul K NO).
+Notation kdiv := (ndiv K NO).
+Notation kopp := (nopp K NO).
+Variable kinv : K -> K.
+Hypothesis Kf : field_theory k0 k1 kadd kmul ksub kopp kdiv kinv (@eq K).
+Add Field KfieldME : Kf.
+
+Theorem merged_err_closed_form z px rx pt rt :
+  ksub z px <> k0 -> ksub z pt <> k0 ->
+  ev_err K K K k0 kadd ksub (fz K NO z) (EvMerged [(px, rx)] (px, gf_term_add K NO rx rt) true) (pt, rt) =
+  kdiv (kmul rt (ksub px pt)) (kmul (ksub z px) (ksub z pt)).
+Proof.
+  intros H1 H2. unfold ev_err, eval, fz. cbn [fold_left fst snd].
+  rewrite !gf_term_eval_char, gf_term_add_char. field. split; assumption.
+Qed.
+
+Theorem negligible_err_closed_form z px rx pt rt :
+  ksub z px <> k0 -> ksub z pt <> k0 ->
+  ev_err K K K k0 kadd ksub (fz K NO z) (EvNegligible [(px, rx)] (px, gf_term_add K NO rx rt)) (pt, rt) =
+  ksub (kdiv (kmul rt (ksub px pt)) (kmul (ksub z px) (ksub z pt))) (kdiv (kadd rx rt) (ksub z px)).
+Proof.
+  intros H1 H2. unfold ev_err, eval, fz. cbn [fold_left fst snd].
+  rewrite !gf_term_eval_char. field. split; assumption.
+Qed.
+End MergeErr.
